@@ -46,6 +46,7 @@ THEOREMS = [
     'PbBss.C17.leaky_mvdr_leakage_bound',
     'PbBss.C17.two_level_pipeline_sir_partial',
     'PbBss.C17.em_posterior_psd',
+    'PbBss.C17.balanced_pipeline_chain',
 ]
 ASSUMPTIONS = [
     'PARTIAL: the 99 % MAP-accuracy and 30 dB SIR thresholds with ESTIMATED masks (EM posteriors after DHTV + oracle '
